@@ -80,16 +80,16 @@ type c16State struct {
 	sleeps int
 
 	// per-cycle
-	old      map[string]map[string]bool
-	muts     int
-	where    string
-	lastOut  string
-	nontriv  bool
-	key      string
-	bad      []hbfs.Fail
-	badSeen  map[string]bool
-	lastCmds []string
-	dbg      bool
+	old       map[string]map[string]bool
+	muts      int
+	where     string
+	lastOut   string
+	nontriv   bool
+	key       string
+	bad       []hbfs.Fail
+	badSeen   map[string]bool
+	lastCmds  []string
+	dbg       bool
 	evOut     string // outcome / non-triviality of the EVENT (the probes of Check overwrite lastOut/nontriv)
 	evNontriv bool
 }
@@ -105,16 +105,16 @@ func (s *c16State) fail(key, f string, a ...any) {
 
 func c16NewState(cfg c16Cfg) *c16State {
 	s := &c16State{
-		cfg:       cfg,
-		k:         newC16Kernel(),
-		want:      map[string]c16Want{},
-		foreign:   map[string]string{},
-		drift:     map[string]bool{},
-		delFailed: map[string]bool{},
+		cfg:         cfg,
+		k:           newC16Kernel(),
+		want:        map[string]c16Want{},
+		foreign:     map[string]string{},
+		drift:       map[string]bool{},
+		delFailed:   map[string]bool{},
 		restoreLeak: map[string]bool{},
-		badSeen:   map[string]bool{},
-		now:       time.Unix(1_700_000_000, 0),
-		where:     "setup",
+		badSeen:     map[string]bool{},
+		now:         time.Unix(1_700_000_000, 0),
+		where:       "setup",
 	}
 	s.vc = NewIPVersionConfig(IPFamilyV4, "cali", []string{"felix-", "cali"}, []string{"felix-masq-ipam-pools", "felix-all-ipam-pools"})
 	s.k.onStep = s.onStep
